@@ -106,6 +106,7 @@ type Interp struct {
 	mapOrderAll bool
 	depth     int
 	knownActive string
+	forkIndex   bool
 	pcSet       map[*Term]bool
 	xxMemo      []xxEntry
 	uncertain   bool
@@ -1025,6 +1026,10 @@ func (in *Interp) elemPtr(a []value, idx *Term, what string) Ptr {
 	}
 	if len(a) == 1 {
 		return Ptr{p: &a[0]}
+	}
+	if in.forkIndex {
+		k := in.concretizeByModel(idx, what)
+		return Ptr{p: &a[k.val]}
 	}
 	if scalarElems(a) && len(a) <= in.ex.cfg.MaxSymArray {
 		return Ptr{arr: a, idx: idx}
